@@ -389,8 +389,8 @@ class GroupedType(BaseDataType):
         self._avps = list()
 
         avps_keys = list()
-        for avp_key in self.__dict__.keys():
-            if "_avp" in avp_key and avp_key != "_avps":
+        for avp_key, item in self.__dict__.items():
+            if isinstance(item, DiameterAVP):
                 avps_keys.append(avp_key)
                     
         for avp_key in avps_keys:
